@@ -9,6 +9,7 @@ import (
 	"encoding/hex"
 	"encoding/json"
 	"fmt"
+	"github.com/flosch/pongo2/v6"
 	"os"
 	"path/filepath"
 	"sort"
@@ -179,4 +180,16 @@ func joinHex(l []string) string {
 		p[i] = hx(s)
 	}
 	return strings.Join(p, ",")
+}
+
+// registeredTags: the engine's tags plus the probe tag the model knows as an extra tag; the
+// harness's other helper tags (Go-only cases) are left out
+func registeredTags() []string {
+	var out []string
+	for _, t := range pongo2.VerifRegisteredTags() {
+		if t != "verifstatetag" {
+			out = append(out, t)
+		}
+	}
+	return out
 }
